@@ -324,10 +324,15 @@ def pbd_observe(case) -> dict[str, Any]:
         p = os.path.join(d, "pb.h5")
         try:
             obs["orig"] = pbd_desc(pb)
+            line = pb_tokens(pb, stored_only=False)
             pb.to_hdf(Path(p) if case["pathlib"] else p, append=case["append"], hdf_node_path=case["node"])
             obs["orig_after"] = pbd_desc(pb)
             pb2 = OptimizationProblem.from_hdf(p, hdf_node_path=case["node"])
             obs["back"] = pbd_desc(pb2)
+            back = pb_tokens(pb2, stored_only=True)
+            if line is not None and back is not None:
+                obs["line"] = "pbd " + line
+                obs["impl"] = "file=" + raw_pb_file(p, case["node"]) + " back=" + back
         except Exception as e:  # noqa: BLE001
             obs["exc"] = common.exc_class(e) + ": " + repr(e)[:160]
     finally:
@@ -413,6 +418,113 @@ def pbd_oracle(case, obs) -> list[tuple[str, str]]:
     return bad
 
 
+# --------------------------------------------------------------------------- correspondence with the Lean model
+
+
+def hx(s) -> str:
+    s = str(s)
+    return s.encode().hex() if s else "-"
+
+
+def names_tok(names) -> str:
+    return "+".join(hx(t) for t in names) if names else "[]"
+
+
+def func_tok(d: dict[str, Any]) -> str:
+    return ":".join([hx(d["name"]), hx(d["f_type"] or ""), hx(d["expr"] or ""), names_tok(d["input_names"]), str(int(d["dim"] or 0)),
+                     hx(d["special_repr"] or ""), names_tok(d["output_names"])])
+
+
+def _shape_tok(shape) -> str:
+    return "x".join(str(t) for t in shape) if len(shape) else "_"
+
+
+def _rats(values) -> str:
+    return ",".join(rat(float(t)) for t in values) if len(values) else "[]"
+
+
+def pyv_tok(v) -> str | None:
+    """Token of a Python value handed to the writers (None when it has no image in the model)."""
+    if v is None:
+        return "N"
+    if isinstance(v, (bool, np.bool_)):
+        return "t:1" if v else "t:0"
+    if isinstance(v, (int, np.integer)):
+        return f"i:{int(v)}"
+    if isinstance(v, (float, np.floating)):
+        return "f:" + rat(float(v)) if np.isfinite(v) else None
+    if isinstance(v, str):
+        return "s:" + hx(v)
+    if isinstance(v, np.ndarray) and v.dtype.kind in "fiu" and v.ndim >= 1 and np.isfinite(v.astype(float)).all():
+        return "n:" + _shape_tok(v.shape) + ":" + _rats(v.astype(float).ravel().tolist())
+    return None
+
+
+def _is_empty(v) -> bool:
+    return v is None or (isinstance(v, str) and not v) or (isinstance(v, np.ndarray) and v.ndim >= 1 and len(v) == 0)
+
+
+def solution_items(sol, stored_only: bool) -> str | None:
+    """The flat fields of `OptimizationResult.to_dict()` (mappings go to other groups, not modelled)."""
+    toks = []
+    for k, v in sorted(sol.to_dict().items()):
+        if isinstance(v, dict):
+            continue
+        if stored_only and _is_empty(v):
+            continue
+        t = pyv_tok(v)
+        if t is None:
+            return None
+        toks.append(hx(k) + "~" + t)
+    return ";".join(toks) if toks else "-"
+
+
+def pb_tokens(pb, stored_only: bool) -> str | None:
+    """`<min> <lin> <method> <step> <ineq> <eq> obj=.. c=.. o=.. [sol=..]` of a real problem (public API)."""
+    toks = ["1" if pb.minimize_objective else "0", "1" if pb.is_linear else "0", hx(str(pb.differentiation_method)),
+            rat(float(pb.differentiation_step)), rat(float(pb.tolerances.inequality)), rat(float(pb.tolerances.equality)),
+            "obj=" + func_tok(func_desc(pb.objective))]
+    toks += ["c=" + func_tok(func_desc(c)) for c in pb.constraints]
+    toks += ["o=" + func_tok(func_desc(c)) for c in pb.observables]
+    if pb.solution is not None:
+        items = solution_items(pb.solution, stored_only)
+        if items is None:
+            return None
+        toks.append("sol=" + items)
+    return " ".join(toks)
+
+
+def _raw_dataset(ds) -> str:
+    v = ds[()]
+    if isinstance(v, (bytes, str)):
+        return "b:" + hx(v.decode() if isinstance(v, bytes) else v)
+    if isinstance(v, np.ndarray) and v.dtype.kind in "OSU":
+        return "A:" + names_tok([t.decode() if isinstance(t, bytes) else str(t) for t in v.ravel().tolist()])
+    if isinstance(v, np.ndarray):
+        return "n:" + _shape_tok(v.shape) + ":" + _rats(v.astype(float).ravel().tolist())
+    t = pyv_tok(v)
+    return t if t is not None else "?"
+
+
+def _raw_group(g) -> str:
+    import h5py
+
+    return "{" + "&".join(f"{k}={_raw_dataset(g[k])}" for k in sorted(g) if isinstance(g[k], h5py.Dataset)) + "}"
+
+
+def raw_pb_file(path: str, node: str) -> str:
+    """The groups `to_hdf` wrote about the problem, read through h5py."""
+    import h5py
+
+    with h5py.File(path, "r") as h5:
+        g = h5[node] if node else h5
+        out = "desc" + _raw_group(g["opt_description"]) + "obj" + _raw_group(g["objective"])
+        for label, name in (("cstr", "constraints"), ("obs", "observables")):
+            out += label + "[" + ("".join(hx(k) + _raw_group(g[name][k]) for k in g[name]) if name in g else "") + "]"
+        out += "sol" + (_raw_group(g["solution"]) if "solution" in g else "-")
+    return out
+
+
 def shrink_pbd(case, key):
     def fails(c):
         try:
@@ -445,10 +557,23 @@ def shrink_pbd(case, key):
     return cur
 
 
-def check_pbd_cases(res, cases) -> None:
-    for case in cases:
+def pbd_neighbours(case):
+    for grp in ("cstr", "obs"):
+        for i in range(len(case[grp])):
+            yield {**case, grp: case[grp][:i] + case[grp][i + 1:]}
+    yield {**case, "node": "" if case["node"] else "a/b"}
+    yield {**case, "solution": None}
+    yield {**case, "minimize": not case["minimize"]}
+    yield {**case, "points": []}
+
+
+def check_pbd_cases(res, cases, pid: str = "C11") -> None:
+    observed = [(case, pbd_observe(case)) for case in cases]
+    lines = [obs["line"] for _, obs in observed if "line" in obs]
+    answers = iter(common.run_lean_driver(pid, lines)) if lines else iter(())
+    for case, obs in observed:
         res.evaluations += 1
-        obs = pbd_observe(case)
+        model = next(answers) if "line" in obs else None
         if "build_exc" in obs:
             res.count("pbd:specification-not-buildable:" + obs["build_exc"].split(":")[0])
             continue
@@ -471,22 +596,46 @@ def check_pbd_cases(res, cases) -> None:
         sol = case["solution"]
         res.count("pbd:solution=" + ("none" if sol is None else "from-problem" if sol.get("from_problem") else "field-by-field"))
         if "orig" in obs and obs["orig"]["solution"] is not None:
-            s = obs["orig"]["solution"]
+            so = obs["orig"]["solution"]
             for k in ("f_opt", "status", "optimum_index", "n_obj_call", "n_grad_call", "n_constr_call"):
-                if s[k] in (0, "0.0"):
+                if so[k] in (0, "0.0") and so[k] is not False:
                     res.count(f"pbd:solution-{k}=0")
-            if s["is_feasible"] is False:
+            if so["is_feasible"] is False:
                 res.count("pbd:solution-is_feasible=False")
         if case["tols"] and "0" in case["tols"]:
             res.count("pbd:zero-tolerance")
         res.count(f"pbd:points={len(case['points'])}")
         if case["cstr"] or case["obs"]:
             res.nontrivial("pbd:" + json.dumps(case, sort_keys=True))
-        res.sample({"case": "pbd", "spec": case})
-        for key, msg in pbd_oracle(case, obs):
+        res.sample({"case": "pbd", "protocol": (obs.get("line") or "")[:300], "impl": (obs.get("impl") or "")[:300], "model": (model or "")[:300]})
+        bad = pbd_oracle(case, obs)
+        for key, msg in bad:
             res.count("pbd:oracle-fail:" + key)
             if not any(v.key == key and v.kind == "oracle" for v in res.violations):
                 res.violate("oracle", key, msg, {"case": shrink_pbd(case, key)})
+        if model is None:
+            res.count("pbd:not-compared-with-the-model")
+            continue
+        if obs["impl"] == model:
+            res.traces_validated += 1
+            continue
+        res.disagreements += 1
+        res.count("pbd:model-disagreement")
+        if bad or any(v.kind in ("oracle", "correspondence") and v.key.startswith("pb") for v in res.violations):
+            continue
+        found = False
+        for nb in pbd_neighbours(case):
+            o2 = pbd_observe(nb)
+            b2 = pbd_oracle(nb, o2)
+            if b2:
+                res.violate("oracle", b2[0][0], b2[0][1], {"case": shrink_pbd(nb, b2[0][0])})
+                found = True
+                break
+        if not found:
+            res.violate("correspondence", "pbd-model-vs-impl",
+                        "problem to_hdf/from_hdf differs from the Lean model of the attribute groups (no property-violating input found among the neighbours)",
+                        {"case": case, "protocol_line": obs["line"], "impl": obs["impl"], "model": model,
+                         "correspondence": "Driver/C11.lean `pbd`"})
 
 
 def replay_pbd(case) -> int:
@@ -496,6 +645,10 @@ def replay_pbd(case) -> int:
     for k in ("build_exc", "exc"):
         if k in obs:
             print(k, ":", obs[k])
+    if "line" in obs:
+        print("line :", obs["line"])
+        print("impl :", obs["impl"])
+        print("model:", common.run_lean_driver("C11", [obs["line"]])[0])
     bad = pbd_oracle(case, obs)
     for k, m in bad:
         print("ORACLE FAILS:", k, m)
@@ -631,8 +784,24 @@ def _cmp_entry(case, e, entry, label: str) -> str | None:
     return None
 
 
-def jac_observe(case) -> list[tuple[str, str]]:
-    """Clauses broken by the caches of this case: [(key, message)]."""
+def _raw_sparse_block(h5, node: str, index: int, o: str, i: str) -> str | None:
+    """`data|indices|indptr|shape` of the sparse dataset of d`o`/d`i` in entry `index` of the node."""
+    grp = h5[node][str(index)]["jacobian"]
+    names = [k for k in grp if k.startswith(o) and k.endswith(i) and len(k) > len(o) + len(i)]
+    if len(names) != 1:
+        return None
+    ds = grp[names[0]]
+    if not ds.attrs.get("sparse"):
+        return "not-sparse"
+    ints = lambda a: ",".join(str(int(t)) for t in np.asarray(a).ravel().tolist()) or "[]"  # noqa: E731
+    shape = np.asarray(ds.attrs.get("shape")).ravel().tolist()
+    return "|".join([_rats(np.asarray(ds[()]).astype(float).ravel().tolist()), ints(ds.attrs.get("indices")),
+                     ints(ds.attrs.get("indptr")), "x".join(str(int(t)) for t in shape)])
+
+
+def jac_observe(case, with_lines: bool = False):
+    """Clauses broken by the caches of this case: [(key, message)] (+ the protocol lines of the sparse
+    blocks with the implementation's answers when `with_lines`)."""
     from gemseo.caches.hdf5_cache import HDF5Cache
 
     from harness import c11
@@ -641,6 +810,7 @@ def jac_observe(case) -> list[tuple[str, str]]:
     p = os.path.join(d, "cache.h5")
     s = case["sizes"]
     bad: list[tuple[str, str]] = []
+    lines: list[tuple[str, str]] = []
     try:
         caches = [HDF5Cache(hdf_file_path=p, hdf_node_path=n) for n in case["nodes"]]
         for e in case["entries"]:
@@ -678,6 +848,24 @@ def jac_observe(case) -> list[tuple[str, str]]:
                         bad.append((key, msg))
                 except Exception as e:  # noqa: BLE001
                     bad.append(("cache-read-raises", f"{label} (node {node!r}): reading raised {common.exc_class(e)}: {repr(e)[:120]}"))
+            if with_lines and len(lines) < 8:
+                import h5py
+
+                re = HDF5Cache(hdf_file_path=p, hdf_node_path=node)
+                with h5py.File(p, "r") as h5:
+                    for k, e in enumerate(mine):
+                        for o, sub in e["jac"].items():
+                            for i, blk in sub.items():
+                                if blk["fmt"] == "dense" or len(lines) >= 8:
+                                    continue
+                                line = f"jac {s[o]} {s[i]} " + (",".join(blk["data"]) or "[]")
+                                try:
+                                    raw = _raw_sparse_block(h5, node, k + 1, o, i)
+                                    got = re[_entry_inputs(case, e)].jacobian[o][i]
+                                    dense = np.asarray(got.toarray() if hasattr(got, "toarray") else got, dtype=float)
+                                    lines.append((line, f"file={raw} read={_rats(dense.ravel().tolist())}"))
+                                except Exception as exc:  # noqa: BLE001
+                                    lines.append((line, "E:" + common.exc_class(exc)))
     except Exception as e:  # noqa: BLE001
         bad.append(("cache-raises", "HDF5Cache raised " + common.exc_class(e) + ": " + repr(e)[:120]))
     finally:
@@ -688,7 +876,7 @@ def jac_observe(case) -> list[tuple[str, str]]:
         if k not in seen:
             seen.add(k)
             out.append((k, m))
-    return out
+    return (out, lines) if with_lines else out
 
 
 def shrink_jac(case, key):
@@ -730,8 +918,11 @@ def shrink_jac(case, key):
     return cur
 
 
-def check_jac_cases(res, cases) -> None:
-    for case in cases:
+def check_jac_cases(res, cases, pid: str = "C11") -> None:
+    observed = [(case, *jac_observe(case, with_lines=True)) for case in cases]
+    all_lines = [ln for _, _, lines in observed for ln, _ in lines]
+    answers = iter(common.run_lean_driver(pid, all_lines)) if all_lines else iter(())
+    for case, bad, lines in observed:
         res.evaluations += 1
         s = case["sizes"]
         res.count(f"jac:nodes={len(case['nodes'])}")
@@ -753,11 +944,41 @@ def check_jac_cases(res, cases) -> None:
             res.count("jac:string-input")
         if n_blocks >= 2:
             res.nontrivial("jac:" + json.dumps(case, sort_keys=True))
-        res.sample({"case": "jac", "nodes": case["nodes"], "sizes": s, "n_entries": len(case["entries"])})
-        for key, msg in jac_observe(case):
+        for key, msg in bad:
             res.count("jac:oracle-fail:" + key)
             if not any(v.key == key and v.kind == "oracle" for v in res.violations):
                 res.violate("oracle", key, msg, {"case": shrink_jac(case, key)})
+        first = True
+        for line, impl in lines:
+            model = next(answers)
+            if first:
+                res.sample({"case": "jac", "protocol": line[:200], "impl": impl[:300], "model": model[:300]})
+                first = False
+            res.count("jac:sparse-block-compared-with-the-model")
+            if impl == model:
+                res.traces_validated += 1
+                continue
+            res.disagreements += 1
+            res.count("jac:model-disagreement")
+            if bad or any(v.key.startswith("cache") or v.key == "jac-model-vs-impl" for v in res.violations):
+                continue
+            # neighbours: the same block alone, cached in every format
+            found = False
+            r, c = (int(t) for t in line.split()[1:3])
+            data = line.split()[3].split(",") if line.split()[3] != "[]" else []
+            for fmt in SPARSE_FORMATS:
+                nb = {"kind": "jac", "nodes": ["n"], "sizes": {"x": c, "p": 1, "y": r, "z": 1}, "strings": False,
+                      "entries": [{"node": 0, "x": ["1"] * c, "p": ["0"], "order": "oj",
+                                   "jac": {"y": {"x": {"fmt": fmt, "flavour": "array", "data": data}}}}]}
+                b2 = jac_observe(nb)
+                if b2:
+                    res.violate("oracle", b2[0][0], b2[0][1], {"case": nb})
+                    found = True
+                    break
+            if not found:
+                res.violate("correspondence", "jac-model-vs-impl",
+                            "the sparse Jacobian block written to the cache file differs from the Lean model of the CSR layout (no property-violating input found among the neighbours)",
+                            {"case": case, "protocol_line": line, "impl": impl, "model": model, "correspondence": "Driver/C11.lean `jac`"})
 
 
 def replay_jac(case) -> int:
